@@ -29,8 +29,8 @@ CHECKS = {
     "C07": ("proof", "Thin by design: the model needs no state (history_independent, globals_untouched are immediate); presentation_independent has content (the result depends on the series only through its entries in the window). All assurance that the implementation is such a function comes from the tie: recorded generator stream must equal a fresh default_rng(42) stream consumed in model order; histories of interleaved calls / reseeded global RNGs / plotting; global RNG states compared before/after; presentations ndarray C/F, lists, DataFrame, int vs float; fresh-process probes, estimator warm-up histories on other data, buffers refilled in place, short-wide plain-Lasso branch. A genuine defect found this way (plain-Lasso fall-back advanced NumPy's global generator) is repaired by fix: commit ca4e9f7.",
             "A pure model cannot exhibit hidden state; the history-differential tie is what decides the property.",
             "Lean 4 (thin) + history/presentation differential testing against the model"),
-    "C08": ("proof", "Lean theorems over Q with Mathlib's determinant (bridge detF = Matrix.det): ratio_cov, X<->Y symmetry, chain rule at the level of correlation determinants, scalar form 1/(1-r^2), invariance under per-column affine maps, row permutation; estimator = 1/2 log ratio. Tie: real gaussian (conditional) MI and dispatcher vs 1/2 log of the exact rational ratio (1e-8 abs + 1e-8 rel), LS-residual reference, sentinel/degenerate branches.",
-            "log and float rounding are outside the theorems (tolerance). Non-negativity is proved for scalar X,Y (nonneg_partial, Cauchy-Schwarz after the Schur-complement identity schur/resid_cov); the general block case needs Fischer's inequality.",
+    "C08": ("proof", "Lean theorems over Q with Mathlib's determinant (bridge detF = Matrix.det): ratio_cov, X<->Y symmetry, chain rule at the level of correlation determinants, scalar form 1/(1-r^2), invariance under per-column affine maps, row permutation; non-negativity for ALL block sizes (nonneg: 1 <= ratio whenever the four determinants are non-zero) via Fischer's inequality for PSD block matrices, proved here since Mathlib lacks it (fischer_inequality, covM_posSemidef, covM_koteljanskii); estimator = 1/2 log ratio. Tie: real gaussian (conditional) MI and dispatcher vs 1/2 log of the exact rational ratio (1e-8 abs + 1e-8 rel), LS-residual reference, sentinel/degenerate branches.",
+            "log and float rounding are outside the theorems (tolerance).",
             "Lean 4 proof (Mathlib determinants) + exact-rational reference evaluation"),
     "C09": ("proof", "The dispatch tables are REGENERATED from the Python AST every run and checked by `decide` against tableOK; Lean theorems for every table passing the check: dispatch_value (documented estimator evaluated, every accepted setting is the caller's, with and without Z), dispatch_floor, non-finite pass-through, kde alias, unknown name raises. Independent spy-based tie: dispatcher value vs max(0, direct call with explicit settings) bit-for-bit over the cross product of names/paths/settings, planted nan/inf/negative returns.",
             "Translator (ast pattern matching) trusted, cross-checked against spied behaviour. One open known finding (geometric-kNN Z=None path drops k/metric).",
